@@ -74,10 +74,13 @@ class CmaStrategy(HoloPyObject):
                  parallel='auto'):
         self.npixels = npixels
         self.popsize = popsize
+        self.resample_pixels = resample_pixels
+        self.parent_fraction = parent_fraction
         if resample_pixels:
             self.new_pixels = self.npixels
         else:
             self.new_pixels = None
+        self.weight_function = weight_function
         if weight_function is None:
             def weight_function(x, n):
                 return (x + 1) <= (parent_fraction * n)
